@@ -134,22 +134,31 @@ func genNVIndex(c *gal.Ctx) {
 			mult = 2
 		}
 		attrOK := attrs|aWritten == wantAttr[which]|aWritten
-		spec := attrOK && knownAlg && int(dataSize) == dg*mult+baseSize[which]
+		sizeOK := knownAlg && int(dataSize) == dg*mult+baseSize[which]
+		spec := attrOK && sizeOK
+		// for SHA256/384/512 the size the code expects coincides with the specified one, so there
+		// the attribute test is the only listed deviation; for every other name algorithm the code's
+		// size expectation (Go hash table) is the listed finding
+		coincident := nameAlg == 0x000B || nameAlg == 0x000C || nameAlg == 0x000D
 		switch {
 		case exact(got, spec):
 			c.OracleOK()
-		case got.Panic:
+		case got.Panic && (nameAlg == 0 || nameAlg > 19):
 			c.OracleFailKnown(id, "C05-NVIndex-nameAlg-cryptoHash", idxName[which]+" panics: crypto.Hash(nameAlg).Size() is applied to a TPM algorithm id", siteTPM+":"+idxName[which], d)
+		case got.Panic || got.E2:
+			c.OracleFail(id, fmt.Sprintf("%s: unexpected %+v", idxName[which], got), siteTPM, d)
 		case which == 2 && spec && !got.OK:
 			c.OracleFailKnown(id, "C05-POIndexConfig-never-passes", "POIndexConfig rejects a correctly configured PO index (falls out of the switch into 'unknown TPM device version')", siteTPM+":POIndexConfig", d)
-		case got.OK && !attrOK:
-			c.OracleFailKnown(id, "C05-NVAttr-precedence", idxName[which]+" accepts an NV index whose attributes differ from the required ones", siteTPM+":checkTPM2NVAttr", d)
 		case which == 2 && !got.OK:
 			c.OracleOK() // rejected and should be rejected
-		case attrOK && got.OK != spec:
+		case coincident && got.OK && !attrOK && sizeOK:
+			c.OracleFailKnown(id, "C05-NVAttr-precedence", idxName[which]+" accepts an NV index whose attributes differ from the required ones", siteTPM+":checkTPM2NVAttr", d)
+		case !coincident && got.OK && !attrOK:
+			c.OracleFailKnown(id, "C05-NVAttr-precedence", idxName[which]+" accepts an NV index whose attributes differ from the required ones", siteTPM+":checkTPM2NVAttr", d)
+		case !coincident && attrOK:
 			c.OracleFailKnown(id, "C05-NVIndex-nameAlg-cryptoHash", idxName[which]+" expects the digest size of crypto.Hash(nameAlg) instead of the TPM algorithm's (right for SHA256/384/512 by coincidence, wrong for SHA1 and SM3)", siteTPM+":"+idxName[which], d)
 		default:
-			c.OracleFail(id, fmt.Sprintf("%s: spec accept=%v, got %+v", idxName[which], spec, got), siteTPM, d)
+			c.OracleFail(id, fmt.Sprintf("%s: spec accept=%v (attributes ok=%v, size ok=%v), got %+v", idxName[which], spec, attrOK, sizeOK, got), siteTPM, d)
 		}
 	}
 	for which := 0; which < 3; which++ {
@@ -252,6 +261,10 @@ func genNVIndex(c *gal.Ctx) {
 		switch {
 		case got.Panic || got.E2:
 			c.OracleFail(id, fmt.Sprintf("%s (TPM 1.2): unexpected %+v", idxName[which], got), siteTPM, d)
+		case got.OK == accept && which != 2 && got.E1 != (!got.OK || (which == 0 && !wd) || (which == 1 && wd)):
+			// accepted with / without the provisioning remark: PS wants WriteDefine set (remark when clear),
+			// AUX wants it clear (remark when set)
+			c.OracleFail(id, fmt.Sprintf("%s (TPM 1.2): WriteDefine=%v, verdict %+v: the WriteDefine remark is attached to the wrong state", idxName[which], wd, got), siteTPM, d)
 		case got.OK == accept:
 			c.OracleOK()
 		case which == 2 && accept && !got.OK:
@@ -328,7 +341,7 @@ func genLCP(c *gal.Ctx) {
 		switch {
 		case exact(got, spec):
 			c.OracleOK()
-		case got.Panic && pol.PolicyType != 1:
+		case got.Panic && pol.PolicyType != 1 && pol.Version >= 0x300 && uint16(pol.HashAlg) == preset:
 			c.OracleFailKnown(id, "C05-LCP2-nil-deref", name(po)+" panics (nil pointer) on every LCP_POLICY2 whose PolicyType is not ANY: the test reads pol1.PolicyType with pol1 == nil", siteTPM+":"+name(po), d)
 		default:
 			c.OracleFail(id, fmt.Sprintf("%s: LCP_POLICY2 valid = %v, got %+v", name(po), spec, got), siteTPM+":"+name(po), d)
